@@ -23,7 +23,7 @@ func init() {
 			sys := newSysCases("quick")
 			nSp := size(tier, 3, 6)
 			return &harness.Plan{
-				N:     sys.n()/2 + size(tier, 100000, 1000000),
+				N:     sys.n()/2 + size(tier, 100000, 6000000),
 				Setup: func(c *harness.Ctx) { hooksOn() },
 				Run: func(c *harness.Ctx, k int) {
 					hooksAlternate(k)
